@@ -109,9 +109,44 @@ Proof.
   intros S. apply check_C01_complete in S. vm_compute in S. discriminate.
 Qed.
 
+(* a | each {|x| put $x 'y' } *)
+Definition example_src : bytes := [97; 32; 124; 32; 101; 97; 99; 104; 32; 123; 124; 120; 124; 32; 112; 117; 116; 32; 36; 120; 32; 39; 121; 39; 32; 125]%N.
 Lemma example_pipeline :
-  match parse_model pr0 (hx "61207c2065616368207b7c787c2070757420247820277927207d") with
-  | Some (t, es) => check_C01 (hx "61207c2065616368207b7c787c2070757420247820277927207d") t es = true /\ es = []
+  match parse_model pr0 example_src with
+  | Some (t, es) => check_C01 example_src t es = true /\ es = []
   | None => False
   end.
+Proof. vm_compute. split; reflexivity. Qed.
+
+(* Prop-level reading of [ok_C02] *)
+Lemma sweep_prefix_prop s : in_sweep s -> errs_of s = Some [] -> valid s = true ->
+  forall p, In p (proper_prefixes s) ->
+  exists es, errs_of p = Some es
+    /\ (forall e, In e es -> e_partial e = true /\ e_from e = length p)
+    /\ (es <> [] -> isSyntaxComplete p es = false).
+Proof.
+  intros Hs He Hv p Hp. pose proof (sweep_prefix s Hs) as S. unfold ok_C02 in S.
+  rewrite He, Hv in S. cbn [negb andb orb] in S. rewrite orb_false_r in S.
+  rewrite forallb_forall in S. specialize (S p Hp).
+  destruct (errs_of p) as [es|]; [|discriminate]. exists es. split; [reflexivity|].
+  apply andb_true_iff in S as [S S3]. apply andb_true_iff in S as [S1 S2].
+  rewrite forallb_forall in S1, S2. split.
+  - intros e Hin. split; [now apply S1|]. apply Nat.eqb_eq. now apply S2.
+  - intros Hne. destruct es; [congruence|]. now apply negb_true_iff in S3.
+Qed.
+
+(* The full statement of C02 over the model, for reference (not proved in
+   general; see checks/C02.md): for every text that parses without errors,
+   every proper prefix that is valid UTF-8 has only errors that are partial and
+   start at its end. *)
+Definition prefix_errors_partial_statement : Prop :=
+  forall is_print src, valid src = true ->
+    (exists t, parse_model is_print src = Some (t, [])) ->
+    forall k, 0 < k < length src -> valid (firstn k src) = true ->
+    exists t es, parse_model is_print (firstn k src) = Some (t, es)
+      /\ forall e, In e es -> e_partial e = true /\ e_from e = k.
+
+Lemma example_prefix :
+  errs_of [97; 32; 124; 32; 98]%N = Some []
+  /\ errs_of [97; 32; 124]%N = Some [E 3 3 errShouldBeForm true].
 Proof. vm_compute. split; reflexivity. Qed.
